@@ -2,7 +2,9 @@ package dtone
 
 import (
 	"fmt"
+	"maps"
 	"net/http"
+	"slices"
 	"strings"
 
 	"github.com/nyaruka/gocommon/httpx"
@@ -70,8 +72,10 @@ func (s *service) Transfer(sender urns.URN, recipient urns.URN, amounts map[stri
 	}
 
 	// find a matching product in any currency we have a desired amount for
+	// (in currency order so that the choice doesn't depend on map iteration order)
 	var product *Product
-	for currency, desiredAmount := range amounts {
+	for _, currency := range slices.Sorted(maps.Keys(amounts)) {
+		desiredAmount := amounts[currency]
 		for _, p := range products {
 			if p.Destination.Unit == currency {
 				if p.Destination.Amount.Equal(desiredAmount) {
@@ -79,6 +83,9 @@ func (s *service) Transfer(sender urns.URN, recipient urns.URN, amounts map[stri
 					break
 				}
 			}
+		}
+		if product != nil {
+			break
 		}
 	}
 	if product == nil {
